@@ -49,7 +49,7 @@ class ExprMixin:
         if isinstance(v, tuple):
             return tuple(self.wrap_real(x) for x in v)
         if isinstance(v, list):
-            return tuple(self.wrap_real(x) for x in v)
+            return PyList(self.wrap_real(x) for x in v)
         if isinstance(v, types.ModuleType):
             name = v.__name__
             short = name.split(".")[-1]
@@ -168,7 +168,8 @@ class ExprMixin:
             return [(st, BuiltinRef("x." + e.id))]
         if e.id in ("old", "entry", "implies", "isint", "fresh", "hashkey",
                     "same_shape", "is_none", "seq_len", "seq_at", "unchanged",
-                    "classname", "ite", "seq_eq", "hash_elems", "assume", "use_lemma", "intstr", "local"):
+                    "classname", "ite", "seq_eq", "hash_elems", "assume", "use_lemma", "intstr", "local", "fmt_value",
+                    "fmt_template"):
             return [(st, BuiltinRef("spec." + e.id))]
         return [(st, self.lookup_global(e.id, env.get("__module__")))]
 
@@ -387,6 +388,15 @@ class ExprMixin:
         if isinstance(a, str) and isinstance(b, str) and isinstance(op, ast.Add):
             return [(st, a + b)]
         if isinstance(a, str) and isinstance(op, ast.Mod):
+            if self.is_dict(b, st):
+                from .strings import FmtResult
+                import re as _re
+                d = st.obj(b).d
+                for nm in _re.findall(r"%\((\w+)\)", a):
+                    if nm not in d:
+                        self.raise_exc(st, "KeyError", node)
+                        return []
+                return [(st, FmtResult(a, dict(d)))]
             return [(st, self.str_format(a, b, st))]
         if isinstance(a, str) and isinstance(b, int) and isinstance(op, ast.Mult):
             return [(st, a * b)]
@@ -406,8 +416,12 @@ class ExprMixin:
             r = st.alloc("list")
             st.obj(r).items = list(st.obj(a).items) + list(st.obj(b).items)
             return [(st, r)]
-        if la and isinstance(b, tuple) and isinstance(op, ast.Add):
-            raise OutOfReach("list + tuple")
+        if isinstance(op, ast.Add) and ((la and isinstance(b, tuple)) or
+                                         (lb and isinstance(a, tuple))):
+            # a module-level list constant is held as a tuple: list + list
+            r = st.alloc("list")
+            st.obj(r).items = list(self.seq_items(a, st)) + list(self.seq_items(b, st))
+            return [(st, r)]
         if type(op) in BIN_DUNDER and (self.is_obj(a, st) or self.is_obj(b, st)):
             fwd, rev = BIN_DUNDER[type(op)]
             outs = []
